@@ -173,12 +173,13 @@ Proof.
     destruct (k_nohole f) as [K1 K2]. fold g in K1, K2.
     cbn [csubst toks_of]. rewrite tsubst_app, tsubst_cons_nohole by exact K1.
     rewrite tsubst_app, tsubst_cons_nohole by exact K2. rewrite IHa, IHb, IHc by assumption. reflexivity.
-  - cbn [csubst toks_of]. rewrite tsubst_LP, tsubst_app, IHe by exact H. reflexivity.
+  - apply andb_true_iff in H. destruct H as [H _].
+    cbn [csubst toks_of]. rewrite tsubst_LP, tsubst_app, IHe by exact H. reflexivity.
 Qed.
 
 (* ------------------------------------------------------ precedences *)
 Definition kid_ok (g : gram) (hp : nat) (e : cexpr) : Prop :=
-  wf_prec g hp e = true /\ (hp <= prec g hp e)%nat /\ holes_lt 0 e = true.
+  wf_prec g hp e = true /\ (hp <= prec g hp e)%nat /\ holes_lt 0 e = true /\ not_double g e = true.
 
 Lemma prec_csubst : forall g hp ks e, Forall (kid_ok g hp) ks -> holes_lt (length ks) e = true ->
   (prec g hp e <= prec g hp (csubst ks e))%nat.
@@ -211,7 +212,7 @@ Proof.
   - split; [exact H|reflexivity].
   - split; reflexivity.
   - apply Nat.ltb_lt in Hh. rewrite Forall_forall in Hk.
-    destruct (Hk (nth k ks (EHole k)) (nth_In _ _ Hh)) as [H1 [_ H3]]. split; assumption.
+    destruct (Hk (nth k ks (EHole k)) (nth_In _ _ Hh)) as [H1 [_ [H3 _]]]. split; assumption.
   - apply andb_true_iff in H. destruct H as [Hp H]. destruct (IHe H Hh) as [A B].
     cbn [wf_prec holes_lt]. rewrite A, B. rewrite (leb_trans_prec _ _ _ Hp (PC e Hk Hh)). split; reflexivity.
   - apply andb_true_iff in H. destruct H as [H H2]. apply andb_true_iff in H. destruct H as [Hp H1].
@@ -242,7 +243,19 @@ Proof.
     cbn [wf_prec holes_lt]. rewrite A1, B1, A2, B2, A3, B3.
     rewrite (leb_trans_prec _ _ _ Hpa (PC a Hk Hh1)), (leb_trans_prec _ _ _ Hpb (PC b Hk Hh2)),
             (leb_trans_prec _ _ _ Hpc (PC c Hk Hh3)). split; reflexivity.
-  - destruct (IHe H Hh) as [A B]. cbn [wf_prec holes_lt]. split; assumption.
+  - apply andb_true_iff in H. destruct H as [H Hnd]. destruct (IHe H Hh) as [A B].
+    cbn [wf_prec holes_lt]. rewrite A. split; [|exact B]. cbn [andb].
+    destruct e; cbn [csubst]; try exact Hnd;
+      try (unfold not_double; rewrite andb_false_r; reflexivity).
+    cbn [holes_lt] in Hh. apply Nat.ltb_lt in Hh. rewrite Forall_forall in Hk.
+    destruct (Hk (nth k ks (EHole k)) (nth_In _ _ Hh)) as [_ [_ [_ H4]]]. exact H4.
+Qed.
+
+Lemma not_double_csubst : forall g hp ks e, Forall (kid_ok g hp) ks ->
+  is_hole e = false -> not_double g e = true -> not_double g (csubst ks e) = true.
+Proof.
+  intros g hp ks e Hk Hh Hn. destruct e; cbn [csubst]; try exact Hn;
+    try (unfold not_double; rewrite andb_false_r; reflexivity). discriminate.
 Qed.
 
 (* ------------------------------------------------------- small facts *)
@@ -435,26 +448,29 @@ Proof.
   intros sh H. pose proof (root_min_le f) as Hle.
   assert (Wk : forall w, word_ok (gram_of f) w = true ->
            w <> [] /\ forallb is_word w = true /\ negb (reserved (gram_of f) w) = true /\ negb (starts_dot w) = true /\
-           exp_tail (match w with c :: _ => is_digit c | [] => false end) (rev w) = false).
+           exp_tail (match w with c :: _ => is_digit c | [] => false end) (rev w) = false /\
+           not_double (gram_of f) (EAtom w) = true).
   { intros w Hw. unfold word_ok in Hw.
     repeat (apply andb_true_iff in Hw; destruct Hw as [Hw ?]).
     repeat split; auto.
     - intro; subst. discriminate.
     - apply negb_true_iff. assumption. }
+  assert (ND : forall e, (match e with EAtom _ => False | _ => True end) -> not_double (gram_of f) e = true).
+  { intros e He. unfold not_double. destruct e; try contradiction; rewrite andb_false_r; reflexivity. }
   destruct sh as [w|s|w]; cbn [shape_ok shape_text shape_ast toks_of] in *.
-  - destruct (Wk w H) as [Hn [Hall [Hres [Hdot Hexp]]]].
+  - destruct (Wk w H) as [Hn [Hall [Hres [Hdot [Hexp Hnd]]]]].
     destruct (piece_word w Hn Hall Hexp) as [P C].
     split.
     + split; [exact P|]. split.
       * destruct w as [|c r]; [congruence|]. cbn [forallb] in Hall. apply andb_true_iff in Hall. destruct Hall as [Hc _].
         cbn [hd]. unfold firsts. rewrite Hc. reflexivity.
       * exists AWord. split; [exact C|cbn; tauto].
-    + split; [cbn [wf_prec]; rewrite Hres, Hdot; reflexivity|]. split; [exact Hle|reflexivity].
+    + split; [cbn [wf_prec]; rewrite Hres, Hdot; reflexivity|]. split; [exact Hle|]. split; [reflexivity|exact Hnd].
   - destruct (piece_str s H) as [P C]. split.
     + split; [exact P|]. split; [reflexivity|].
       exists AIdle. split; [exact C|cbn; tauto].
-    + split; [reflexivity|]. split; [exact Hle|reflexivity].
-  - destruct (Wk w H) as [Hn [Hall [Hres [Hdot Hexp]]]].
+    + split; [reflexivity|]. split; [exact Hle|]. split; [reflexivity|apply ND; exact I].
+  - destruct (Wk w H) as [Hn [Hall [Hres [Hdot [Hexp Hnd]]]]].
     destruct (piece_word w Hn Hall Hexp) as [Pw Cw].
     destruct (piece_punct LPAR eq_refl eq_refl eq_refl) as [P1 E1].
     destruct (piece_punct MINUS eq_refl eq_refl eq_refl) as [P2 E2].
@@ -484,17 +500,27 @@ Proof.
       * assert (Hun : exists p, g_un (gram_of f) (p1 MINUS) = Some p /\ (p <= PMAX)%nat)
           by (destruct f; cbn; eexists; (split; [reflexivity|apply Nat.leb_le; reflexivity])).
         destruct Hun as [p [Hp Hle2]]. cbn [wf_prec prec]. rewrite Hp, Hres, Hdot.
-        rewrite (proj2 (Nat.leb_le _ _) Hle2). reflexivity.
-      * split; [exact Hle|reflexivity].
+        rewrite (proj2 (Nat.leb_le _ _) Hle2). cbn [andb]. apply ND. exact I.
+      * split; [exact Hle|]. split; [reflexivity|apply ND; exact I].
 Qed.
 
 End Node.
+
+Lemma shape_paren : forall g sh, shape_ok g sh = true ->
+  hd 0 (shape_text sh) = LPAR -> is_paren (shape_ast sh) = true.
+Proof.
+  intros g [w|s|w] H Hh; cbn [shape_text shape_ast is_paren hd] in *; try reflexivity; try discriminate.
+  destruct w as [|c r]; [discriminate|]. cbn [hd] in Hh. subst c.
+  unfold shape_ok, word_ok in H. repeat (apply andb_true_iff in H; destruct H as [H ?]).
+  match goal with h : forallb is_word _ = true |- _ => cbn in h; discriminate end.
+Qed.
 
 (* ------------------------------------------------------- all programs *)
 Definition node_fact (f : fmt) (env : lang_env) (t : tree) (txt : bytes) : Prop :=
   render_tree env f t = Some txt /\
   known f txt (toks_of (gram_of f) (ast env f t)) /\
-  kid_ok (gram_of f) (root_min f) (ast env f t).
+  kid_ok (gram_of f) (root_min f) (ast env f t) /\
+  (hd 0 txt = LPAR -> is_paren (ast env f t) = true).
 
 Lemma ast_terminal : forall env f s par,
   ast env f (Node s par []) =
@@ -522,7 +548,7 @@ Proof.
   - inversion HF as [|? ? Hk Hks]; subst.
     cbn [forallb] in Hg, Ho. apply andb_true_iff in Hg. destruct Hg as [Hg1 Hg2].
     apply andb_true_iff in Ho. destruct Ho as [Ho1 Ho2].
-    destruct (Hk Hg1 Ho1) as [x [Hr [Hkn Hko]]].
+    destruct (Hk Hg1 Ho1) as [x [Hr [Hkn [Hko _]]]].
     destruct (IH Hks Hg2 Ho2) as [xs [Hm [H2 [H3 H4]]]].
     destruct (render_good env f k Hg1) as [x' [Hr' Hps]]. rewrite Hr in Hr'. inversion Hr'; subst x'.
     exists (x :: xs). cbn [map_opt map forallb]. rewrite Hr, Hm, Hps, H4.
@@ -558,7 +584,8 @@ Proof.
     rewrite ast_terminal, Et.
     unfold term_ok in Hos. apply andb_true_iff in Hos. destruct Hos as [Hsh Heq].
     apply bytes_eqb_eq in Heq. destruct (known_shape f _ Hsh) as [A B]. rewrite Heq in A.
-    split; [reflexivity|]. split; assumption.
+    split; [reflexivity|]. split; [assumption|]. split; [assumption|].
+    intro Hh. apply (shape_paren _ _ Hsh). rewrite Heq. exact Hh.
   - (* function node: its entry of the table *)
     set (kids := k0 :: ks) in *.
     assert (Hne : kids <> []) by discriminate.
@@ -574,7 +601,8 @@ Proof.
     apply andb_true_iff in He. destruct He as [Hto Hlit].
     destruct (tlex (length ktxt) (segs_of tm)) as [ts|] eqn:Etl; [|discriminate].
     destruct (tmpl_ast (gram_of f) (length ktxt) tm) as [a|] eqn:Ea; [|discriminate].
-    apply andb_true_iff in Hast. destruct Hast as [Hast _].
+    apply andb_true_iff in Hast. destruct Hast as [Hast Hnd].
+    apply andb_true_iff in Hast. destruct Hast as [Hast Hnh]. apply negb_true_iff in Hnh.
     apply andb_true_iff in Hast. destruct Hast as [Hast Hpar].
     apply andb_true_iff in Hast. destruct Hast as [Hast Hholes].
     apply andb_true_iff in Hast. destruct Hast as [Hast Hroot].
@@ -590,7 +618,7 @@ Proof.
     { destruct (segs_of tm); [discriminate|discriminate]. }
     destruct (segs_lex f ktxt _ HK (segs_of tm) Hsne Hsegs Hlit Hbor) as [ts0 [Ets0 [P [C Hhd]]]].
     rewrite Etl in Ets0. inversion Ets0; subst ts0.
-    split; [reflexivity|]. split.
+    split; [reflexivity|]. split; [|split].
     + unfold inst. split; [|split].
       * rewrite (toks_csubst f (root_min f)) by exact Hwf. rewrite map_map. rewrite Htoks. exact P.
       * rewrite Hhd. destruct (segs_of tm) as [|[l|d] r] eqn:Es; try discriminate.
@@ -601,10 +629,16 @@ Proof.
     + assert (Hlen2 : length (map (ast env f) kids) = length ktxt) by (rewrite map_length; symmetry; exact Hlen).
       destruct (wf_csubst (gram_of f) (root_min f) (map (ast env f) kids) a HKO Hwf) as [W H0].
       { rewrite Hlen2. exact Hholes. }
-      split; [exact W|]. split; [|exact H0].
+      split; [exact W|]. split; [|split; [exact H0|eapply not_double_csubst; eauto]].
       apply Nat.leb_le in Hroot.
       pose proof (prec_csubst (gram_of f) (root_min f) (map (ast env f) kids) a HKO) as PC.
       rewrite Hlen2 in PC. specialize (PC Hholes). exact (Nat.le_trans _ _ _ Hroot PC).
+    + (* a text that starts with '(' is a parenthesised expression *)
+      unfold inst. rewrite Hhd. destruct (segs_of tm) as [|[l|d] r] eqn:Es; try discriminate.
+      destruct l as [|c l]; [discriminate|]. rewrite inst_seg_lit. cbn [seg_text hd]. intro Hc. subst c.
+      rewrite <- Hflat in Hpar. rewrite flat_cons in Hpar. cbn [seg_text app] in Hpar.
+      rewrite Z.eqb_refl in Hpar. cbn [negb orb] in Hpar.
+      destruct a; try discriminate. reflexivity.
 Qed.
 
 (* the statements used by Props/Properties_C19.v *)
@@ -615,6 +649,6 @@ Corollary lex_render_all_trees : forall f env t,
     wf_prec (gram_of f) (root_min f) (ast env f t) = true /\
     holes_lt 0 (ast env f t) = true.
 Proof.
-  intros f env t Htab Hg Ho. destruct (table_all_trees f env Htab t Hg Ho) as [txt [Hr [[P _] [W [_ H0]]]]].
+  intros f env t Htab Hg Ho. destruct (table_all_trees f env Htab t Hg Ho) as [txt [Hr [[P _] [[W [_ [H0 _]]] _]]]].
   exists txt. split; [exact Hr|]. split; [apply piece_lex; exact P|]. split; assumption.
 Qed.
